@@ -207,6 +207,7 @@ class Built:
         self.outcomes = []      # per op: ('ok',) | ('exc', type name, message)
         self.arrays = {}        # channel op index -> ndarray handed over (or to be handed at write)
         self.error = None       # exception constructing DLISFile / logical files
+        self.payload_refs = {}  # nf_data op index -> the payload object handed over
 
     def ok(self, i):
         return self.outcomes[i][0] == 'ok'
@@ -298,6 +299,7 @@ def run_op(b: Built, i: int, op: dict, source: str = 'inline') -> None:
             if op.get('as') == 'bytearray':
                 payload = bytearray(payload)
         b.handles[i] = lf.add_no_format_frame_data(b.handles[op['target']], payload)
+        b.payload_refs[i] = payload          # the caller's own object (a bytearray can be re-used by the caller afterwards)
     elif kind == 'assign':
         tgt = b.handles[op['target']]
         an = schema.item_attr_name(op['target_op'], op['kw'])
@@ -338,6 +340,11 @@ def run_op(b: Built, i: int, op: dict, source: str = 'inline') -> None:
             v.clear()
         else:
             raise HarnessError(op['how'])
+    elif kind == 'scribble':
+        # the caller re-uses the buffer it handed over as a no-format payload (in place: other content, other length)
+        buf = b.payload_refs.get(op['target'])
+        if isinstance(buf, bytearray):
+            buf[:] = b'\xEE' * (len(buf) // 2 + 1)
     elif kind == 'noop':
         pass
     elif kind == 'rename_set':
